@@ -282,6 +282,16 @@ class Faults(object):
                     raise OSError(me.err, os.strerror(me.err))
                 return s.f.read(*a)
 
+            def seek(s, *a):
+                if not me.streaming and not me.depth and me.tick('seek', getattr(s.f, 'name', None)):
+                    raise OSError(me.err, os.strerror(me.err))
+                return s.f.seek(*a)
+
+            def tell(s):
+                if not me.streaming and not me.depth and me.tick('tell', getattr(s.f, 'name', None)):
+                    raise OSError(me.err, os.strerror(me.err))
+                return s.f.tell()
+
             def __iter__(s):
                 return iter(s.f)
 
